@@ -55,6 +55,13 @@ def correspondence(ctx, batch):
     for _ in range(ctx.n(60, 1000)):
         stages.stage_pipeline(batch, [("Root", [threshold_sample(rng)])], registry, threshold_cmps(rng),
                               parts=("process", "merge", "replaces"))
+    # a registry that is merged, receives more data and is merged again
+    from .. import gen as _gen
+    for _ in range(ctx.n(25, 300)):
+        tree = _gen.gen_recursive_tree(rng) if rng.random() < 0.6 else _gen.gen_shared_shape(rng)
+        more = _gen.gen_recursive_tree(rng) if rng.random() < 0.5 else dict(tree, extra_key=1)
+        stages.stage_pipeline(batch, [("Item", [more]), ("Again", [tree])], registry, [] if rng.random() < 0.5 else threshold_cmps(rng),
+                              parts=("process", "merge", "replaces"), first=[("Root", [tree])])
 
 
 def threshold_cmps(rng):
